@@ -6,6 +6,11 @@ package signature
 
 //@ import "crypto/x509"
 //@ import "bytes"
+//@ import "time"
+//@ import "github.com/notaryproject/notation-core-go/internal/algorithm"
+//@ import "github.com/notaryproject/notation-core-go/signature/jws"
+//@ import "github.com/notaryproject/notation-core-go/signature/cose"
+//@ import corex509 "github.com/notaryproject/notation-core-go/x509"
 
 // stmt C19: "byte-for-byte identical"
 //@ stmt spec func RawEq(a *x509.Certificate, b *x509.Certificate) bool { bytes.Equal(a.Raw, b.Raw) }
@@ -29,3 +34,60 @@ package signature
 //@   requires r != nil
 //@   ensures [nonnil] result != nil
 //@   pure
+
+// ---- algorithm.go
+//@ func ExtractKeySpec(signingCert)
+//@   requires signingCert != nil && algorithm.KeyShape(signingCert.PublicKey)
+//@   ensures [iff] err == nil <==> algorithm.SupportedKey(signingCert.PublicKey)
+//@   ensures [same] err == nil ==> result == algorithm.ExtractKeySpec$(signingCert).result0
+//@   ensures [typed] err != nil ==> typeof(err) == type(*UnsupportedSigningKeyError) && result.Type == 0 && result.Size == 0
+//@   pure
+
+// ---- types.go
+// stmt C19: "The authentic signing time is available exactly under the signing-authority scheme with a non-zero signing time"
+//@ func (*SignerInfo).AuthenticSigningTime(signerInfo)
+//@   requires signerInfo != nil
+//@   ensures [iff] err == nil <==> (signerInfo.SignedAttributes.SigningScheme == SigningSchemeX509SigningAuthority && !signerInfo.SignedAttributes.SigningTime.IsZero())
+//@   ensures [value] err == nil ==> result == signerInfo.SignedAttributes.SigningTime
+//@   ensures [zero] err != nil ==> result.IsZero()
+
+// stmt C13: "looking up an attribute by key returns that attribute or an error when absent"
+//@ func (*SignerInfo).ExtendedAttribute(signerInfo, key)
+//@   requires signerInfo != nil
+//@   ensures [found] err == nil <==> (exists k :: 0 <= k && k < len(signerInfo.SignedAttributes.ExtendedAttributes) && signerInfo.SignedAttributes.ExtendedAttributes[k].Key == box(key))
+//@   ensures [first] err == nil ==> (exists k :: 0 <= k && k < len(signerInfo.SignedAttributes.ExtendedAttributes) && signerInfo.SignedAttributes.ExtendedAttributes[k].Key == box(key) && result == signerInfo.SignedAttributes.ExtendedAttributes[k] && (forall j :: 0 <= j && j < k ==> signerInfo.SignedAttributes.ExtendedAttributes[j].Key != box(key)))
+//@   loop 0
+//@     invariant forall j :: 0 <= j && j < it ==> signerInfo.SignedAttributes.ExtendedAttributes[j].Key != box(key)
+
+// ---- the abstract state of an envelope object (what Verify/Content read and Sign replaces): for the two built-in
+// formats it is the decoded message the object points to
+//@ abstract func OtherEnvState(env Envelope) int
+//@ spec func EnvState(env Envelope) int {
+//@     if typeof(env) == type(*jws.envelope) then unbox(env, type(*jws.envelope)).base
+//@     else if typeof(env) == type(*cose.envelope) then unbox(env, type(*cose.envelope)).base
+//@     else OtherEnvState(env) }
+// raw is the serialisation of message state st (abstract; defined by each format's codec)
+//@ abstract func Encodes(raw []byte, st int) bool
+// c is what message state st decodes to (abstract relation: JWS extended attributes come out in map order)
+//@ abstract func ContentOf(st int, c *EnvelopeContent) bool
+// the signature carried by message state st verifies under the key of its leaf certificate (per-format definition)
+//@ abstract func IntegrityOK(st int) bool
+
+// Interface contract of signature.Envelope as implemented by jws.envelope and cose.envelope (the wrapper
+// base.Envelope is verified against it; the implementations are verified to meet it).
+//@ interface func (Envelope).Sign(env, req)
+//@   modifies unbox(env, type(*jws.envelope)).base, unbox(env, type(*cose.envelope)).base
+//@   ensures [err=>unchanged] err != nil ==> len(result) == 0 && EnvState(env) == old(EnvState(env))
+//@   ensures [ok=>encoded] err == nil ==> len(result) > 0 && Encodes(result, EnvState(env)) && EnvState(env) != 0
+//@ interface func (Envelope).Verify(env)
+//@   ensures [ok] err == nil ==> result != nil && fresh(result) && EnvState(env) != 0 && IntegrityOK(EnvState(env)) && ContentOf(EnvState(env), result) && corex509.ChainInput(result.SignerInfo.CertificateChain)
+//@   ensures [err] err != nil ==> result == nil
+//@ interface func (Envelope).Content(env)
+//@   ensures [ok] err == nil ==> result != nil && fresh(result) && EnvState(env) != 0 && ContentOf(EnvState(env), result) && corex509.ChainInput(result.SignerInfo.CertificateChain)
+//@   ensures [err] err != nil ==> result == nil
+
+// Caller-supplied signer: KeySpec is assumed deterministic.
+//@ interface func (Signer).KeySpec(s)
+//@   pure
+//@ interface func (Signer).Sign(s, payload)
+//@   logged
